@@ -19,6 +19,7 @@ func init() {
 		"through a real MultipleServersDiscovery into a real XClient (fake RPC clients; also 4..16 XClients sharing one discovery with long unordered lists), published back-to-back and with pauses, with fresh KVPair objects or with the publisher's own objects edited in place and republished, under GOMAXPROCS in {1,2,16}, "+
 		"for every selection strategy in {random, round-robin, weighted, hash} and client group settings; after quiescence the set of servers that actually "+
 		"receive calls must equal filter(last published list); the filter itself is compared with the Lean model on grammar-generated metadata; "+
+		"plus client churn: 250-400 XClients on one discovery, a few of them closed concurrently with every published update, every client still open must switch to it (each round replayed on the Lean hub model); "+
 		"non-trivial = at least two updates with different server sets; distinct = distinct input line",
 		runC14)
 }
